@@ -227,6 +227,7 @@ def run_unit(spec_path: str, tier: str, seed: int, kf_omit: set, do_vacuity: boo
     R.build_file = path
     R.functions = g.functions
     R.rewrites = list(g.rewrites)
+    R.param_names = dict(g.param_names)
     R.skipped = list(g.skipped_hints)
     R.items_sha = g.items_sha
     R.trusted = scan_trusted(text)
@@ -517,6 +518,7 @@ def check_property(prop: str, tier: str, seed: int, quiet: bool = False) -> int:
 
 def update_baseline():
     allobs = set()
+    allparams = {}
     for sp in sorted(glob.glob(os.path.join(ROOT, "specs", "*.vs"))):
         kf_omit = set(k["obligation"] for k in load_kf() if k.get("status") == "known")
         r = run_unit(sp, "quick", 0, kf_omit, False)
@@ -526,6 +528,8 @@ def update_baseline():
                 print(f"  WARNING {r.unit}/{fid}: spec parts that found no anchor on this tree: {info['skipped_hints']}")
         for o in r.obligations:
             if o["discharged"]: allobs.add(o["oid"])
+        allparams.update(getattr(r, "param_names", {}))
+    json.dump(allparams, open(os.path.join(ROOT, "specs", "PARAMS.json"), "w"), indent=0, sort_keys=True)
     p = os.path.join(ROOT, "specs", "BASELINE_OBLIGATIONS.json")
     json.dump(sorted(allobs), open(p, "w"), indent=0)
     print(f"wrote {p}: {len(allobs)} obligations")
